@@ -214,6 +214,13 @@ def get_iter(I, v):
         v = load(v)
     if isinstance(v, IterV):
         return v
+    if isinstance(v, Adt) and v.ty == 'Range':
+        # a Range used directly as an iterator ((0..n).map(..)): materialise it once and keep the iterator in place
+        a, b = I.concretize_int(v.fields[0]), I.concretize_int(v.fields[1])
+        it = iter_values(I, list(range(a, b)))
+        if isinstance(v0, Ptr):
+            I.store(v0.cell, v0.path, it)
+        return it
     raise Unsupported('not an iterator: %r' % (v0,))
 
 
@@ -526,6 +533,29 @@ def convert(I, src, into_trait, v):
         return Ptr(Cell(e), (), 'box')
     if sh == 'JsValue' or dh == 'JsValue':
         return Opaque('JsValue')
+    if sh in ('u8', 'u16', 'u32', 'char') and dh in ('char', 'u32', 'u64', 'usize', 'u16'):
+        return v        # integers and chars share one representation (code point)
+    # swc_ecma_ast derives `From<Payload> for Enum` for its tuple variants (ast_node / FromVariant): Ident -> Expr::Ident, ...
+    target = dh
+    boxed_target = False
+    if dh == 'Box':
+        inner = re.search(r'Box<(.*)>$', dst.strip())
+        if inner:
+            target = type_head(inner.group(1))
+            boxed_target = True
+    d = I.P.defs.get(target)
+    if d is not None and hasattr(d, 'variants'):
+        for vi, (vn, fields, kindv) in enumerate(d.variants):
+            if kindv == 'tuple' and len(fields) == 1:
+                fty = fields[0][1].strip()
+                fboxed = fty.startswith('Box<')
+                fh = type_head(fty[4:-1]) if fboxed else type_head(fty)
+                if fh == sh:
+                    payload_v = Ptr(Cell(v), (), 'box') if fboxed and not isinstance(v, Ptr) else v
+                    e = Adt(d.name, vi, [payload_v])
+                    return Ptr(Cell(e), (), 'box') if boxed_target else e
+    if sh == dh:
+        return v
     raise Unsupported('conversion %s -> %s' % (src, dst))
 
 
@@ -607,6 +637,16 @@ def _default(I, info, args):
         return Adt('PrintArgs', None, [none(), none(), none(), False, Opaque('SourceMapsConfig::default'), Opaque('DUMMY_NAMES'), none(), none(), False, StrV(''), Opaque('codegen::Config::default'), none()])
     if sh in ('EsSyntax',):
         return Opaque(sh)
+    if sh in ('HashMap', 'BTreeMap'):
+        return Adt('HashMap', None, [SetV(True, None)])
+    if sh in ('HashSet', 'BTreeSet'):
+        return Adt('HashSet', None, [SetV(False, None)])
+    if sh == 'Vec':
+        return VecV([])
+    if sh in ('u8', 'u16', 'u32', 'u64', 'usize', 'i32', 'i64', 'isize'):
+        return 0
+    if sh == 'Option':
+        return none()
     raise Unsupported('Default for %s' % sh)
 
 
@@ -792,6 +832,47 @@ def _it_collect(I, info, args):
         if x is None:
             break
         items.append(x)
+    mm = re.search(r'collect::<(.*)>\s*$', info['raw'])
+    target = mm.group(1).strip() if mm else ''
+    from interp import type_head
+    th = type_head(target) if target else ''
+    if th == 'String':
+        # chars (code points) or string pieces
+        parts = []
+        for x in items:
+            x = deref(x)
+            if isinstance(x, StrV):
+                parts.append(x)
+            elif isinstance(x, int) or is_sym(x):
+                parts.append(char_to_str(x))
+            else:
+                parts.append(as_str(I, x))
+        return str_concat(parts) if parts else StrV('')
+    if th in ('HashSet', 'BTreeSet'):
+        s = SetV(False, None)
+        for x in items:
+            if set_find(I, s, x, 'collect::<HashSet>') < 0:
+                s.keys.append(x)
+        return Adt('HashSet', None, [s])
+    if th in ('HashMap', 'BTreeMap'):
+        s = SetV(True, None)
+        for x in items:
+            k, v = x.fields
+            i = set_find(I, s, k, 'collect::<HashMap>')
+            if i >= 0:
+                s.vals[i] = v
+            else:
+                s.keys.append(k)
+                s.vals.append(v)
+        return Adt('HashMap', None, [s])
+    if th == 'Option':
+        out = []
+        for x in items:
+            o = opt_force(I, x)
+            if o.variant == 0:
+                return none()
+            out.append(o.fields[0])
+        return some(VecV(out))
     return VecV(items)
 
 
@@ -886,11 +967,11 @@ class EntryV:
         self.s, self.key, self.idx, self.vty = s, key, idx, vty
 
 
-@path(('HashMap', 'entry'))
+@path(('HashMap', 'entry'), ('BTreeMap', 'entry'))
 def _hm_entry(I, info, args):
     s = _setv(args[0])
     from mirparse import split_top
-    mm = re.search(r'HashMap::<(.*)>::entry', info['raw'])
+    mm = re.search(r'(?:Hash|BTree)Map::<(.*)>::entry', info['raw'])
     vty = split_top(mm.group(1))[1].strip() if mm and len(split_top(mm.group(1))) > 1 else None
     return EntryV(s, args[1], set_find(I, s, args[1], 'HashMap::entry'), vty)
 
@@ -945,6 +1026,88 @@ def _entry_and_modify(I, info, args):
     if e.idx >= 0:
         I.call_closure(args[1], [Ptr(Cell(VecV(e.s.vals)), (('i', e.idx),))])
     return e
+
+
+@path(('Vec', 'last'), ('slice', 'last'))
+def _vec_last(I, info, args):
+    items = I.vec_items(args[0])
+    if not items:
+        return none()
+    q = args[0]
+    if isinstance(q, VecV):
+        return some(Ptr(Cell(q), (('i', len(items) - 1),)))
+    while isinstance(load(q), Ptr):
+        q = load(q)
+    return some(Ptr(q.cell, q.path + (('i', len(items) - 1),)))
+
+
+@path(('Vec', 'split_first'), ('slice', 'split_first'), ('Vec', 'split_last'), ('slice', 'split_last'))
+def _split_first(I, info, args):
+    items = I.vec_items(args[0])
+    if not items:
+        return none()
+    q = args[0]
+    if isinstance(q, VecV):
+        q = Ptr(Cell(q))
+    while isinstance(load(q), Ptr):
+        q = load(q)
+    first = info['segs'][-1] == 'split_first'
+    idx = 0 if first else len(items) - 1
+    rest = items[1:] if first else items[:-1]
+    # the rest is handed out as a view sharing the element values (element identity is kept for reads)
+    return some(Tup([Ptr(q.cell, q.path + (('i', idx),)), Ptr(Cell(VecV(rest)))]))
+
+
+@path(('Vec', 'swap_remove'))
+def _vec_swap_remove(I, info, args):
+    items = I.vec_items(args[0])
+    i = I.concretize_int(args[1])
+    if i >= len(items):
+        raise Panic('swap_remove-out-of-bounds', '/'.join(I.stack[-2:]))
+    x = items[i]
+    items[i] = items[-1]
+    items.pop()
+    return x
+
+
+@path(('Vec', 'split_off'))
+def _vec_split_off(I, info, args):
+    items = I.vec_items(args[0])
+    i = I.concretize_int(args[1])
+    if i > len(items):
+        raise Panic('split_off-out-of-bounds', '/'.join(I.stack[-2:]))
+    tail = items[i:]
+    del items[i:]
+    return VecV(tail)
+
+
+@path(('Vec', 'retain'))
+def _vec_retain(I, info, args):
+    items = I.vec_items(args[0])
+    keep = [x for x in list(items) if to_bool(I, I.call_closure(args[1], [Ptr(Cell(x))]), 'retain')]
+    items[:] = keep
+    return UNIT
+
+
+@path(('Vec', 'drain'))
+def _vec_drain(I, info, args):
+    items = I.vec_items(args[0])
+    r = deref(args[1])
+    if isinstance(r, Adt) and r.ty == 'RangeFull':
+        a, b = 0, len(items)
+    elif isinstance(r, Adt) and r.ty == 'Range':
+        a, b = I.concretize_int(r.fields[0]), I.concretize_int(r.fields[1])
+    elif isinstance(r, Adt) and r.ty == 'RangeFrom':
+        a, b = I.concretize_int(r.fields[0]), len(items)
+    elif isinstance(r, Adt) and r.ty == 'RangeTo':
+        a, b = 0, I.concretize_int(r.fields[0])
+    else:
+        raise Unsupported('Vec::drain with %r' % (r,))
+    if a > b or b > len(items):
+        raise Panic('drain-out-of-bounds', '/'.join(I.stack[-2:]))
+    removed = items[a:b]
+    del items[a:b]
+    return iter_values(I, removed)
 
 
 @path(('Vec', 'append'))
@@ -1021,6 +1184,18 @@ def _join(I, info, args):
     return str_concat(parts) if parts else StrV('')
 
 
+@path(('slice', 'concat'))
+def _concat(I, info, args):
+    items = I.vec_items(args[0])
+    if items and isinstance(deref(items[0]), VecV):
+        out = []
+        for it in items:
+            out.extend(deep_clone(x) for x in I.vec_items(it))
+        return VecV(out)
+    parts = [as_str(I, it) for it in items]
+    return str_concat(parts) if parts else StrV('')
+
+
 # Option ------------------------------------------------------------
 
 def _opt(I, v):
@@ -1058,6 +1233,114 @@ def _opt_as_ref(I, info, args):
     while isinstance(load(q), Ptr):
         q = load(q)
     return some(Ptr(q.cell, q.path + (('f', 0),)))
+
+
+@path(('Option', 'take'))
+def _opt_take(I, info, args):
+    p = args[0]
+    old = _opt(I, p)
+    q = p
+    while isinstance(load(q), Ptr):
+        q = load(q)
+    I.store(q.cell, q.path, none())
+    return old
+
+
+@path(('Option', 'replace'))
+def _opt_replace(I, info, args):
+    p = args[0]
+    old = _opt(I, p)
+    q = p
+    while isinstance(load(q), Ptr):
+        q = load(q)
+    I.store(q.cell, q.path, some(args[1]))
+    return old
+
+
+@path(('Option', 'insert'), ('Option', 'get_or_insert'), ('Option', 'get_or_insert_with'))
+def _opt_get_or_insert(I, info, args):
+    p = args[0]
+    cur = _opt(I, p)
+    q = p
+    while isinstance(load(q), Ptr):
+        q = load(q)
+    m = info['segs'][-1]
+    if m == 'insert' or cur.variant == 0:
+        val = args[1] if m != 'get_or_insert_with' else I.call_closure(args[1], [])
+        I.store(q.cell, q.path, some(val))
+    return Ptr(q.cell, q.path + (('f', 0),))
+
+
+@path(('Option', 'or'))
+def _opt_or(I, info, args):
+    v = _opt(I, args[0])
+    return v if v.variant == 1 else opt_force(I, args[1])
+
+
+@path(('Option', 'or_else'))
+def _opt_or_else(I, info, args):
+    v = _opt(I, args[0])
+    return v if v.variant == 1 else opt_force(I, I.call_closure(args[1], []))
+
+
+@path(('Option', 'xor'))
+def _opt_xor(I, info, args):
+    a, b = _opt(I, args[0]), _opt(I, args[1])
+    if a.variant == 1 and b.variant == 0:
+        return a
+    if a.variant == 0 and b.variant == 1:
+        return b
+    return none()
+
+
+@path(('Option', 'zip'))
+def _opt_zip(I, info, args):
+    a, b = _opt(I, args[0]), _opt(I, args[1])
+    if a.variant == 1 and b.variant == 1:
+        return some(Tup([a.fields[0], b.fields[0]]))
+    return none()
+
+
+@path(('Option', 'and'))
+def _opt_and(I, info, args):
+    a = _opt(I, args[0])
+    return opt_force(I, args[1]) if a.variant == 1 else none()
+
+
+@path(('Option', 'filter'))
+def _opt_filter(I, info, args):
+    v = _opt(I, args[0])
+    if v.variant == 0:
+        return v
+    return v if to_bool(I, I.call_closure(args[1], [Ptr(Cell(v.fields[0]))]), 'Option::filter') else none()
+
+
+@path(('Option', 'is_none_or'))
+def _opt_is_none_or(I, info, args):
+    v = _opt(I, args[0])
+    if v.variant == 0:
+        return True
+    return I.call_closure(args[1], [v.fields[0]])
+
+
+@path(('Option', 'ok_or_else'))
+def _opt_ok_or_else(I, info, args):
+    v = _opt(I, args[0])
+    return ok(v.fields[0]) if v.variant == 1 else err(I.call_closure(args[1], []))
+
+
+@path(('Option', 'iter'), ('Option', 'into_iter'), ('Option', 'iter_mut'))
+def _opt_iter(I, info, args):
+    p = args[0]
+    v = _opt(I, p)
+    if v.variant == 0:
+        return iter_values(I, [])
+    if info['segs'][-1] == 'into_iter' and not isinstance(p, Ptr):
+        return iter_values(I, [v.fields[0]])
+    q = p
+    while isinstance(load(q), Ptr):
+        q = load(q)
+    return iter_values(I, [Ptr(q.cell, q.path + (('f', 0),))])
 
 
 @path(('Option', 'as_deref'))
@@ -1355,7 +1638,7 @@ def _mem_drop(I, info, args):
     return UNIT
 
 
-@path(('mem', 'replace'))
+@path(('mem', 'replace'), ('replace',))
 def _mem_replace(I, info, args):
     p = args[0]
     old = load(p)
@@ -1363,7 +1646,7 @@ def _mem_replace(I, info, args):
     return old
 
 
-@path(('mem', 'take'))
+@path(('mem', 'take'), ('take',))
 def _mem_take(I, info, args):
     p = args[0]
     old = load(p)
@@ -1501,7 +1784,7 @@ def _hs_new(I, info, args):
     return Adt('HashSet', None, [SetV(False, _key_ty(info))])
 
 
-@path(('HashMap', 'new'))
+@path(('HashMap', 'new'), ('BTreeMap', 'new'))
 def _hm_new(I, info, args):
     return Adt('HashMap', None, [SetV(True, _key_ty(info))])
 
@@ -1530,7 +1813,7 @@ def _hs_iter(I, info, args):
     return iter_values(I, [Ptr(Cell(s.keys[i])) for i in order])
 
 
-@path(('HashMap', 'insert'))
+@path(('HashMap', 'insert'), ('BTreeMap', 'insert'))
 def _hm_insert(I, info, args):
     s = _setv(args[0])
     i = set_find(I, s, args[1], 'HashMap::insert')
@@ -1543,7 +1826,7 @@ def _hm_insert(I, info, args):
     return none()
 
 
-@path(('HashMap', 'get'), ('HashMap', 'get_mut'))
+@path(('HashMap', 'get'), ('HashMap', 'get_mut'), ('BTreeMap', 'get'), ('BTreeMap', 'get_mut'))
 def _hm_get(I, info, args):
     s = _setv(args[0])
     i = set_find(I, s, deref(args[1]), 'HashMap::get')
@@ -1553,7 +1836,7 @@ def _hm_get(I, info, args):
     return some(Ptr(cell, (('i', i),)))
 
 
-@path(('HashMap', 'contains_key'))
+@path(('HashMap', 'contains_key'), ('BTreeMap', 'contains_key'))
 def _hm_contains(I, info, args):
     s = _setv(args[0])
     return set_find(I, s, deref(args[1]), 'HashMap::contains_key') >= 0
@@ -1901,6 +2184,62 @@ def _it_take(I, info, args):
     return IterV(gen())
 
 
+@path(('iter', 'once'), ('once',))
+def _iter_once(I, info, args):
+    return iter_values(I, [args[0]])
+
+
+@path(('iter', 'empty'), ('empty',))
+def _iter_empty(I, info, args):
+    return iter_values(I, [])
+
+
+@path(('iter', 'repeat_n'), ('repeat_n',))
+def _iter_repeat_n(I, info, args):
+    n = I.concretize_int(args[1])
+    return iter_values(I, [deep_clone(args[0]) for _ in range(n)])
+
+
+@trait('Iterator', 'find_map')
+def _it_find_map(I, info, args):
+    it = get_iter(I, args[0])
+    clo = args[1]
+    while True:
+        x = it.next()
+        if x is None:
+            return none()
+        r = opt_force(I, I.call_closure(clo, [x]))
+        if r.variant == 1:
+            return r
+
+
+@trait('Iterator', 'fold')
+def _it_fold(I, info, args):
+    it = get_iter(I, args[0])
+    acc = args[1]
+    clo = args[2]
+    while True:
+        x = it.next()
+        if x is None:
+            return acc
+        acc = I.call_closure(clo, [acc, x])
+
+
+@trait('Iterator', 'rposition')
+def _it_rposition(I, info, args):
+    it = get_iter(I, args[0])
+    items = []
+    while True:
+        x = it.next()
+        if x is None:
+            break
+        items.append(x)
+    for i in range(len(items) - 1, -1, -1):
+        if to_bool(I, I.call_closure(args[1], [items[i]]), 'rposition'):
+            return some(i)
+    return none()
+
+
 @trait('Iterator', 'position')
 def _it_position(I, info, args):
     it = get_iter(I, args[0])
@@ -2149,6 +2488,23 @@ def _components(p):
     return [c for c in p.split('/') if c not in ('', '.')]
 
 
+@path(('Path', 'to_path_buf'), ('Path', 'to_owned'), ('PathBuf', 'as_path'))
+def _path_to_path_buf(I, info, args):
+    return _mk_path(_path_str(I, args[0]))
+
+
+@path(('str', 'split_once'), ('str', 'rsplit_once'))
+def _split_once(I, info, args):
+    s = as_str(I, args[0])
+    p = as_str(I, args[1])
+    if s.concrete() and p.concrete():
+        i = s.s.find(p.s) if info['segs'][-1] == 'split_once' else s.s.rfind(p.s)
+        if i < 0:
+            return none()
+        return some(Tup([StrV(s.s[:i]), StrV(s.s[i + len(p.s):])]))
+    raise Unsupported('symbolic str::split_once')
+
+
 @path(('Path', 'parent'), ('PathBuf', 'parent'))
 def _path_parent(I, info, args):
     p = _path_str(I, args[0])
@@ -2316,6 +2672,8 @@ def str_nchars(I, s):
         n = str_len(I, s)
         v = I.ctx.var('nchars!%d' % len(I.ctx.notes.setdefault('nchars', [])), z3.IntSort())
         I.ctx.add(z3.And(v <= n, 2 * v >= n), dom=False)
+        for (s2, v2) in I.ctx.notes['nchars']:
+            I.ctx.add(z3.Implies(s.s == s2, v == v2), dom=False)       # equal strings have equally many characters
         I.ctx.notes['nchars'].append((s.s, v))
         cache[key] = v
     return cache[key]
